@@ -16,6 +16,11 @@ _INF = float("inf")
 class SymArray(_np.ndarray):
     """object-dtype array of exact scalars; `astype(float)` copies instead of concretising"""
 
+    def __array_wrap__(self, arr, context=None, return_scalar=False):
+        if arr.ndim == 0:
+            return arr[()]
+        return arr.view(SymArray) if arr.dtype == object else arr
+
     def astype(self, dtype, *a, **k):
         try:
             dt = _np.dtype(dtype)
@@ -100,13 +105,13 @@ def sym(a):
     raise Unsupported(f"cannot make symbolic array from dtype {a.dtype}")
 
 
-def symbols(name, shape):
+def symbols(name, shape, nonneg=False, positive=False):
     """fresh input symbols name[i,j]"""
     if isinstance(shape, int):
         shape = (shape,)
     out = _np.empty(shape, dtype=object)
     for idx in _np.ndindex(*shape):
-        out[idx] = ctx().sym(name + "".join(f"_{i}" for i in idx))
+        out[idx] = ctx().sym(name + "".join(f"_{i}" for i in idx), nonneg=nonneg, positive=positive)
     return out.view(SymArray)
 
 
